@@ -1,0 +1,7 @@
+//go:build !verif
+
+package influxql
+
+func verifOnRead(r *reader)                  {}
+func verifAssertReaderPushback(r *reader)    {}
+func verifAssertTokenPushback(s *bufScanner) {}
